@@ -110,3 +110,12 @@ Section Det.
                 (filter (is_final_set A) sts))
     end.
 End Det.
+
+(* get_difference: the other operand over the joint alphabet, determinised and complemented, then the product *)
+Definition with_syms {Q} (A : enfa Q) (s : list N) : enfa Q :=
+  mkE (e_states A) s (e_delta A) (e_starts A) (e_finals A).
+Definition difference_fa {Q1 Q2} `{EqDec Q1} `{EqDec Q2} `{Canon Q2} (A : enfa Q1) (B : enfa Q2) (n m : nat) :=
+  match determinize true (with_syms B (union (e_syms B) (e_syms A))) n with
+  | Some D => intersection A (complement D) m
+  | None => None
+  end.
